@@ -72,6 +72,35 @@ def real_bindcallsig(req):
 
 
 @functools.lru_cache(maxsize=20000)
+def decorated_stacked(ps, P, W, order):
+    """the two selections applied by two stacked decorators (in either order) instead of one translator"""
+    f = base_func(tuple(ps))
+    try:
+        with warnings.catch_warnings():
+            warnings.simplefilter('ignore')
+            if order == 'pw':
+                dec = modifiers.kwoargs(*W)(modifiers.posoargs(*P)(f))
+            else:
+                dec = modifiers.posoargs(*P)(modifiers.kwoargs(*W)(f))
+    except Exception as e:  # noqa
+        return core.canon_exc(e)
+    return ('ok', dec, None)
+
+
+def real_deccall_stacked(req):
+    op, order, P, W, args, kw, ps = req
+    r = decorated_stacked(tuple(ps), tuple(P), tuple(W), order)
+    if r[0] == 'err':
+        return r
+    a, k = call_values(args, kw)
+    try:
+        d = r[1](*a, **k)
+    except TypeError:
+        return ('typeerror',)
+    return canon_bound(ps, d)
+
+
+@functools.lru_cache(maxsize=20000)
 def decorated(ps, P, W, method=False):
     """-> ('ok', callable, advertised canonical params) | ('err', cls)"""
     if method:
@@ -111,6 +140,35 @@ def real_deccall(req):
             d = {x: v for x, v in d.items() if x != 'self'}
         else:
             d = r[1](*a, **k)
+    except TypeError:
+        return ('typeerror',)
+    return canon_bound(ps, d)
+
+
+@functools.lru_cache(maxsize=20000)
+def decorated_form(ps, form, st, extra):
+    f = base_func((core.P('self', 'pk'),) + tuple(ps))
+    try:
+        with warnings.catch_warnings():
+            warnings.simplefilter('ignore')
+            if form == 'end':
+                dec = modifiers.posoargs(*extra, end=st)(f)
+            else:
+                dec = modifiers.kwoargs(*extra, start=st)(f)
+    except Exception as e:  # noqa
+        return core.canon_exc(e)
+    return ('ok', type('C', (_Self,), {'m': dec}), None)
+
+
+def real_deccall_form(req):
+    op, st, extra, args, kw, ps = req
+    r = decorated_form(tuple(ps), 'end' if op == 'deccallendm' else 'start', st, tuple(extra))
+    if r[0] == 'err':
+        return r
+    a, k = call_values(args, kw)
+    try:
+        d = r[1]().m(*a, **k)
+        d = {x: v for x, v in d.items() if x != 'self'}
     except TypeError:
         return ('typeerror',)
     return canon_bound(ps, d)
@@ -172,7 +230,8 @@ def real_makeup(req):
 
 OPS = {'bindcall': real_bindcall, 'bindcallsig': real_bindcallsig, 'deccall': real_deccall, 'deccallm': real_deccall,
        'prepare': real_prepare, 'startnames': real_names, 'endnames': real_names, 'autonames': real_names,
-       'makeup': real_makeup}
+       'makeup': real_makeup, 'deccallendm': real_deccall_form, 'deccallstartm': real_deccall_form,
+       'deccallst': real_deccall_stacked}
 
 
 # ----------------------------------------------------------------------------- functools.partial (C19)
